@@ -3,9 +3,11 @@ package checks
 import (
 	"fmt"
 	"os"
+
+	"verif/internal/chain"
 )
 
-var children = map[string]func(args []string) int{}
+var children = map[string]func(args []string) int{"node": chain.ChildMain}
 
 // ChildMain dispatches `vcheck --child <kind> ...`.
 func ChildMain(args []string) int {
